@@ -296,7 +296,10 @@ def _one(kind, cf, cname, args, kwargs):
         inc = None
     before = COUNT.get(cname, 0)
     try:
-        v = do_call(kind, cf, args, dict(kwargs))
+        with core.time_limit(60):
+            v = do_call(kind, cf, args, dict(kwargs))
+    except core.Watchdog:
+        v = ("EXC", "NoTermination", "the cached call did not return within 60 s")
     except Exception as e:  # noqa
         v = ("EXC", type(e).__name__, str(e)[:150])
     return (inc, COUNT.get(cname, 0) - before, v)
